@@ -176,6 +176,14 @@ def gen_rounds(seed, tier, run):
             M("indices_at", ty, f"{a} {lst([tot - 1, 0, 0] if tot else [0])}")
             M("indices_at", ty, f"{a} {lst([tot])}")
             M("modf", ty, a); M("divmod", ty, a); M("nan_to_num", ty, a)
+            for kd in (0, 1, 2):
+                for o in ("n", "z1", "z2", "z99", "s" + hexs("fro")):
+                    M("norm", ty, f"{a} {o} n z{kd}")
+                    for ax in range(-n, n):
+                        if rng.random() < 0.4:
+                            M("norm", ty, f"{a} {o} z{ax} z{kd}")
+                if n >= 2:
+                    M("norm", ty, f"{a} n {lst([0, 1])} z{kd}")
             for b in ([1], [2], [3], [2, 2], [0]):
                 for mode in ("n", "s" + hexs("full"), "s" + hexs("valid"), "s" + hexs("same"), "s" + hexs("nope")):
                     if n == 1 or rng.random() < 0.15:
